@@ -16,7 +16,7 @@ void print_rtinfo(const struct libwifi_radiotap_info *i) {
 static void op_rtap(int nt, char **t) {
     (void) nt;
     size_t n; unsigned char *b = hexbuf(t[1], &n);
-    struct libwifi_radiotap_info info; memset(&info, 0x5A, sizeof info);
+    struct libwifi_radiotap_info info; memset(&info, prefill, sizeof info);
     int r;
     LIB(r = libwifi_parse_radiotap_info(&info, b, n));
     if (r != 0) printf("rtap err"); else { printf("rtap ok "); print_rtinfo(&info); }
@@ -61,7 +61,7 @@ static void op_rtgen(int nt, char **t) {
     if (touched) printf(" BEYOND");
     /* decode exactly the bytes produced */
     unsigned char *gen = __real_malloc(r); memcpy(gen, buf, r);
-    struct libwifi_radiotap_info out; memset(&out, 0x5A, sizeof out);
+    struct libwifi_radiotap_info out; memset(&out, prefill, sizeof out);
     int pr;
     LIB(pr = libwifi_parse_radiotap_info(&out, gen, r));
     if (pr != 0) printf(" parse=err"); else { printf(" parse=ok "); print_rtinfo(&out); }
